@@ -9,6 +9,7 @@
  *   wbv prob findex=<f> type=<vl_type> rows=<r> cols=<c> unknowns=<u> nstd=<n> nsys=<k> nf=<sigma_nf> tr=<sigma_tr>
  *           tol=<et_tolerance> limit=<iteration_limit>
  *   wbv std <idx> m <cells> {re im | n n}* s <cells> {<known 0|1> re im | 0 n n}*
+ *   wbv conn <idx> <cells> {0|1}*  /  wbv szero <idx> <cells> {0|1}*    vnm_connectivity_matrix, vnm_s_matrix[c] == vn_zero
  *   wbv eq <sindex> <std> <row> <col> <nterms> { <neg> <m_cell> <s_cell> <v_cell> <xindex> }*     (full vne_term_list)
  *   wbv nov <sindex> <eq number> <nterms> { <v_cell> <xindex> <m_cell> <s_cell> }*               (the vnt_next_no_v thread)
  *   wbv xinit <n> {re im}*                 _vnacal_new_solve_init_x_vector
@@ -83,6 +84,16 @@ double *wbv_calc_weights(vnacal_new_solve_state_t *vnssp)
 	    printf(" %d", vnmmp->vnmm_vnmp->vnm_s_matrix[c] != NULL ? 1 : 0);
 	    wbv_cx(vnmmp->vnmm_s_matrix[c]);
 	}
+	printf("\n");
+	/* the inputs of vnacal_new_build_equation_terms.c: connectivity, S cell entered as vn_zero */
+	if (vnmmp->vnmm_vnmp->vnm_connectivity_matrix == NULL)	/* T16 / U16: not computed */
+	    continue;
+	printf("wbv conn %d %d", i, s_cells);
+	for (int c = 0; c < s_cells; ++c)
+	    printf(" %d", vnmmp->vnmm_vnmp->vnm_connectivity_matrix[c] ? 1 : 0);
+	printf("\nwbv szero %d %d", i, s_cells);
+	for (int c = 0; c < s_cells; ++c)
+	    printf(" %d", vnmmp->vnmm_vnmp->vnm_s_matrix[c] == vnp->vn_zero ? 1 : 0);
 	printf("\n");
     }
     for (int s = 0; s < vnp->vn_systems; ++s) {
